@@ -181,6 +181,9 @@ NEAR_MISS = [
     "na = Integer(0)\nnm = Integer(0)\nfor i in range(2):\n    nm = na\n    na = x0", "nm = Integer(0)\nfor i in range(2):\n    nm = nm + x0",
     "nm = 1\nfor i in range(3):\n    nm = [nm]", "na = 1\nnm = 'a'\nfor i in range(2):\n    nm = na\n    na = 'b'",
     "nm: list[int] = []\nfor i in range(2):\n    nm: list[str] = ['a']", "nm = Integer(1)\nfor i in range(2):\n    for j in range(2):\n        nm = nm * x0",
+    # a store into a list of lists with fewer subscripts than the list has levels, of a value of the innermost type
+    "nm: list[list[int]] = [[1]]\nnm[0] = 2\nnw = nm[0]", "nm: list[list[SecretInteger]] = [[x0]]\nnm[0] = x0 * x0\nnw = nm[0]\nnz = sum(nw)",
+    "nm: list[list[list[int]]] = [[[1]]]\nnm[0][0] = 5\nnw = nm[0][0]",
     # ... a variable first bound inside the outer loop's body and changed by the inner loop
     "for i in range(2):\n    nm = Integer(0)\n    for j in range(2):\n        nw = nm\n        nm = nm + x0",
     "for i in range(2):\n    na = Integer(1)\n    nm = Integer(0)\n    for j in range(3):\n        nm = na\n        na = x0",
